@@ -76,7 +76,8 @@ class CompositeBasis(AbstractBasis):
                         if k == i:
                             tmp.append(self.bases[i].basis[j][0])
                         else:
-                            tmp.append(self.bases[i].basis[j][0].zeros())
+                            # a zero field of the type of component k
+                            tmp.append(self.bases[k].basis[0][0].zeros())
                     bases.append(tuple(tmp))
 
             self._basis = bases
